@@ -15,11 +15,21 @@ from checks import uidrv
 def run(ctx):
     res = vlib.Result(ctx, "model_checking")
     q = ctx.quick
-    r = ctx.tlc("MC_UI", "MC_UI.cfg", consts={"MaxPages": 2 if q else 3, "MaxBuf": 2}, timeout=3000).require_clean()
-    res.add_tlc(r)
+    for world in ("w1", "w2"):
+        r = ctx.tlc("MC_UI", "MC_UI.cfg", consts={"MaxPages": 2 if q else 3, "MaxBuf": 2, "World": '"%s"' % world}, timeout=3000).require_clean()
+        res.add_tlc(r)
     evs = uidrv.ui_events(ctx, res)
-    keys = [e for e in evs if e["ev"] in ("reset", "key", "wild")]
-    bad, r2 = vlib.judge(ctx, "T_UI", "T_UI.cfg", keys)
+    keys, bad = [], []
+    for world in ("w1", "w2"):
+        part = [e for e in evs if e["ev"] in ("reset", "key", "wild") and e["world"] == world]
+        # session ids are per world: make them unique
+        for e in part:
+            if "sid" in e and not e.get("_renumbered"):
+                e["sid"] = e["sid"] + (0 if world == "w1" else 100000)
+                e["_renumbered"] = True
+        b, r2 = vlib.judge(ctx, "T_UI", "T_UI.cfg", [{k: v for k, v in e.items() if k != "_renumbered"} for e in part], name="T_UI_" + world, consts={"World": '"%s"' % world})
+        bad += [dict(x, line=x["line"] + len(keys)) for x in b]
+        keys += part
     sess = {}
     cur = None
     for e in keys:
@@ -28,9 +38,9 @@ def run(ctx):
             sess[cur] = {"start": e["start"], "keys": e["keys"], "steps": []}
         elif e["ev"] == "key":
             sess[cur]["steps"].append(e)
-            res.case([sess[cur]["start"], [s["k"] for s in sess[cur]["steps"]]])
+            res.case([e["world"], sess[cur]["start"], [s["k"] for s in sess[cur]["steps"]]])
         else:
-            res.case(["wild", e["start"], e["keys"]])
+            res.case(["wild", e["world"], e["start"], e["keys"]])
     res.traces = len(sess) + sum(1 for e in keys if e["ev"] == "wild")
     res.rule = ("a case is one key (all bytes of its token) pressed on a real ui.State in the history of its session, after "
                 "background loads have settled, judged by T_UI against the keymap reference (mode, history length and index, "
